@@ -725,8 +725,9 @@ def common(chk):
     chk.assume += ["boost::hash<std::string> is injective on the labels that occur (checked for every case by the harness' hash dump)",
                    "std::map<std::string,...> iterates in byte-lexicographic key order (checked: the sites= field of every case)",
                    "orbital and spin counts < 65536 (unsigned short narrowing is outside the model)",
-                   "prepare() is called once per IndexClassification object (a second call accumulates IndexSize; not part of the property)",
-                   "the operator-level statement `results transform by pi' (sem_permute) is not formalised; it is covered by the differential ED runs only",
+                   "the index table is the one after the last prepare() call (a second call rebuilds it since 1fd1f00)",
+                   "operator level: proved for every permutation (sem_permute_poly, hamiltonian_matrix_relabel) and the observables of the transported eigen-system (observables_relabel_partial); "
+                   "independence of the observables from the choice of eigen-decomposition is not formalised: covered by the differential ED runs",
                    "differential runs: real-valued build, models with <= 5 modes, dyadic couplings, tolerance 1e-9 absolute + relative; "
                    "G as computed by the library is additionally allowed the documented truncation (terms with |residue| <= 1e-8 dropped: "
                    "2e-8 * (number of non-zero matrix elements of c_i in the parts) / |w_n| per copy); G with the drop thresholds set to 0 is compared strictly"]
